@@ -335,3 +335,19 @@ class _Desc:
 def t_descriptor_calls(u):
     d = _Desc()
     return (d.plain(1) + d.static(10) + d.made(1000) + d.prop + _Desc.static(1)) * u
+
+
+def t_numpy_bool(u):
+    masses = np.power([2.0, 3.0], 2)
+    m = masses[0]                       # np.float64
+    below = 3.0 <= 4 * m                # np.bool_
+    n = 0
+    n += 1 if below else 0
+    n += 10 if below is True else 0     # np.True_ is not True
+    n += 100 if below == True else 0
+    n += 1000 if (2.0 <= 3.0) is True else 0
+    n += 10000 if isinstance(below, bool) else 0
+    n += 100000 if bool(below) is True else 0
+    n += 1000000 if (float(m) < 5.0) is True else 0
+    n += 10000000 if (np.sqrt(4.0) == 2.0) is True else 0
+    return n * u
